@@ -58,7 +58,8 @@ type c12Form struct {
 // its own, where the old output is the only Go file.
 // "dry-print": -dry -print; what is observed instead of the written bytes is the printed code (a dry run, too,
 // behaves as if the output path were empty).
-var c12Forms = []c12Form{{"pkgdir-rel"}, {"modroot-rel"}, {"out-flag"}, {"abs"}, {"via-symlink"}, {"out-otherdir"}, {"dry-print"}}
+// "out-noext": an -out name without the .go extension (the tool writes exactly where it is told).
+var c12Forms = []c12Form{{"pkgdir-rel"}, {"modroot-rel"}, {"out-flag"}, {"abs"}, {"via-symlink"}, {"out-otherdir"}, {"dry-print"}, {"out-noext"}}
 
 const c12OutFlagName = "aa_conv.gen.go" // sorts before every generated sibling name
 
@@ -75,6 +76,8 @@ func (f c12Form) spec(root string, sc *c12Scen) (args []string, dir, out string)
 		return []string{setupAbs}, filepath.Join(root, "vtr"), defOut
 	case "via-symlink":
 		return []string{filepath.Join(root+"-lnk", sc.SetupRel)}, filepath.Dir(root), defOut
+	case "out-noext":
+		return []string{"-out", "ab_conv.gen", filepath.Base(sc.SetupRel)}, filepath.Join(root, sc.PkgRel), filepath.Join(root, sc.PkgRel, "ab_conv.gen")
 	case "dry-print":
 		return []string{"-dry", "-print", filepath.Base(sc.SetupRel)}, filepath.Join(root, sc.PkgRel), defOut
 	case "out-otherdir":
@@ -86,6 +89,8 @@ func (f c12Form) spec(root string, sc *c12Scen) (args []string, dir, out string)
 // c12Ref is the observed behaviour of run(version | output path absent).
 type c12Ref struct {
 	OK      bool // two clean runs agreed and no watchdog fired
+	// FirstDiffers is set when the first clean run differs from the (agreeing) second and third ones.
+	FirstDiffers string
 	Exit    int
 	Present bool // output path exists afterwards
 	Out     []byte
@@ -378,6 +383,15 @@ func c12CleanRef(e *core.Env, root string, sc *c12Scen, form c12Form) c12Ref {
 	b := c12Run(e, root, sc, form, c12Absent)
 	ref := c12Ref{Exit: a.Res.Exit, Present: a.Present, Out: a.Out, Stderr: a.Res.Stderr}
 	ref.OK = !a.Res.TimedOut && !b.Res.TimedOut && a.Res.StartErr == "" && a.Res.Exit == b.Res.Exit && a.Present == b.Present && bytes.Equal(a.Out, b.Out)
+	if !ref.OK && !a.Res.TimedOut && !b.Res.TimedOut && a.Res.StartErr == "" {
+		// the second run over an EMPTY output path differs from the first: does the third agree with the
+		// second? Then the very first run left something behind (elsewhere) that every later run sees.
+		c := c12Run(e, root, sc, form, c12Absent)
+		if !c.Res.TimedOut && c.Res.Exit == b.Res.Exit && c.Present == b.Present && bytes.Equal(c.Out, b.Out) {
+			ref.FirstDiffers = fmt.Sprintf("first run: exit %d, output present=%v (%d bytes); second and third run: exit %d, output present=%v (%d bytes); stderr of the second: %s",
+				a.Res.Exit, a.Present, len(a.Out), b.Res.Exit, b.Present, len(b.Out), core.Trunc(b.Res.Stderr, 300))
+		}
+	}
 	return ref
 }
 
@@ -604,6 +618,11 @@ func c12PreStates(sc *c12Scen, clean []byte, stale map[string][]byte, r *rand.Ra
 		for i, tail := range []string{"\n// stale trailing comment\n", "\nfunc staleExtra12() int { return 12 }\n", "garbage", "\n", "\x00\x00"} {
 			add("extended", fmt.Sprintf("output(S) + %q", tail), fmt.Sprintf("ext#%d", i), append(append([]byte{}, clean...), []byte(tail)...), i < 2)
 		}
+		// the old output with Windows line endings (a checkout with autocrlf), whole, in one line only, cut short
+		crlf := bytes.ReplaceAll(clean, []byte("\n"), []byte("\r\n"))
+		add("crlf", "output(S) with CRLF line endings", "crlf-all", crlf, true)
+		add("crlf", "output(S) with one CRLF line", "crlf-one", bytes.Replace(clean, []byte("\n"), []byte("\r\n"), 1), true)
+		add("crlf", "output(S) with CRLF line endings, cut short", "crlf-trunc", crlf[:len(crlf)*2/3], false)
 		// the whole old output under a different package name (package was renamed since)
 		add("otherpkg", "output(S) with package clause renamed", "renamed-output",
 			bytes.Replace(clean, []byte("\npackage "+pkg+"\n"), []byte("\npackage "+pkg+"old\n"), 1), true)
@@ -945,7 +964,17 @@ func RunC12(e *core.Env) int {
 		mu.Unlock()
 	})
 	for k, ref := range refs {
-		if !ref.OK {
+		if !ref.OK && ref.FirstDiffers != "" {
+			rep.Eval(1)
+			files := map[string]string{"setup.go": scs[k.sc].Versions[k.ver].Setup, "what.txt": ref.FirstDiffers}
+			for rel, content := range scs[k.sc].Files {
+				files["files/"+rel] = content
+			}
+			rep.Violate(&core.Violation{Property: "C12", Monitor: "clean-path", Symptom: "rerun-on-empty-output-path-differs-from-first-run",
+				Features: map[string]string{"form": c12Forms[k.form].Name}, Case: scs[k.sc].ID + "/" + c12Forms[k.form].Name,
+				Detail: fmt.Sprintf("scenario %s/%s, invocation %s, version %s, output path removed before every run: %s", scs[k.sc].ID, scs[k.sc].Layout, c12Forms[k.form].Name, scs[k.sc].Versions[k.ver].Name, ref.FirstDiffers),
+				Files:  files})
+		} else if !ref.OK {
 			rep.Inconclusive(fmt.Sprintf("reference run not reproducible: scenario %s/%s form %s version %s", scs[k.sc].ID, scs[k.sc].Layout, c12Forms[k.form].Name, scs[k.sc].Versions[k.ver].Name))
 		}
 		rep.Histo("reference_exit", c12ExitClass(ref.Exit))
